@@ -99,7 +99,9 @@ Definition step_ok (vs isC : bool) (ml mi : nat) (w : world) (s : pstep) : world
           set_eqb sp (in_tree t (p_stored p1)) &&
           (* sanity of the commit / reader statements (C04) on this very commit *)
           (negb (no_embed_below_b true (p_stored (w_p w)) t) ||
-           (current_b t (p_stored p1) s1 && all_stored_b t (p_stored p1) &&
+           (no_stray_b t (p_stored (w_p w)) (w_store w) && refs_closed_b t (w_p w) &&
+            dumps_ok_b t (p_stored (w_p w)) (flat_map (fun q : bool * list nat => if fst q then snd q else []) seqids) &&
+            current_b t (p_stored p1) s1 && all_stored_b t (p_stored p1) &&
             kvl_eqb (map kv_of (load_items Z fuel s1 root_id)) (map kv_of (contents Z t)) &&
             kvl_eqb (map kv_of (reader_iter Z (S (length s1)) s1 root_id)) (map kv_of (contents Z t)))) in
       (mkW (w_st w) p1 s1 t (p_stored p1), ok)
